@@ -33,12 +33,14 @@ class Report:
         self.folded = []    # (module, name, uses)
         self.inlined = []   # (helper, caller, line)
         self.kept = []      # (helper, reason)
+        self.other = []     # free-text lines of the statement-level passes
 
     def lines(self):
         out = [f"renamed back {c}.{n} -> {o}" for c, n, o in self.renamed]
         out += [f"folded constant {m}:{n} into {u} use(s)" for m, n, u in self.folded]
         out += [f"inlined {h} into {c} (line {ln})" for h, c, ln in self.inlined]
         out += [f"helper {h} left as a call: {r}" for h, r in self.kept]
+        out += list(self.other)
         return out
 
 
@@ -82,7 +84,25 @@ def snapshot(modules: dict) -> dict:
                     for t in (n.targets if isinstance(n, ast.Assign) else [n.target]):
                         if isinstance(t, ast.Name):
                             consts.setdefault(f"{rel}::{sc}", []).append(t.id)
-    return {"functions": funcs, "constants": {k: sorted(set(v)) for k, v in consts.items()}}
+    from . import normalize2
+    out = {"functions": funcs, "constants": {k: sorted(set(v)) for k, v in consts.items()}, "attributes": attr_usage(modules)}
+    out.update(normalize2.snapshot_extra(modules))
+    return out
+
+
+def attr_usage(modules: dict) -> dict:
+    """private attribute name -> sorted list of 'module::Class.method:L|S' use sites (package-wide)."""
+    use = {}
+    for rel, mod in sorted(modules.items()):
+        for sc, body, _ in scopes(mod.tree):
+            for fn in body:
+                if not isinstance(fn, FUNC):
+                    continue
+                for n in ast.walk(fn):
+                    if isinstance(n, ast.Attribute) and n.attr.startswith("_") and not n.attr.startswith("__"):
+                        kind = "S" if isinstance(n.ctx, (ast.Store, ast.Del)) else "L"
+                        use.setdefault(n.attr, []).append(f"{rel}::{sc}.{fn.name}:{kind}")
+    return {k: sorted(v) for k, v in use.items()}
 
 
 def load_known():
@@ -129,6 +149,77 @@ def undo_renames(modules, known, rep: Report):
                 rep.renamed.append((sc or rel, new, old))
 
 
+def undo_moves(modules, known, rep: Report):
+    """A known module-level function that became a @staticmethod of a class of the same module (or the reverse):
+    the definition is moved back and the call sites are rewritten."""
+    for rel, mod in modules.items():
+        scs = list(scopes(mod.tree))
+        present = {sc: {n.name: n for n in body if isinstance(n, FUNC)} for sc, body, _ in scs}
+        bodies = {sc: body for sc, body, _ in scs}
+        for sc, body, _ in scs:
+            kf = known["functions"].get(f"{rel}::{sc}") or {}
+            for old, fp in kf.items():
+                if old in present.get(sc, {}):
+                    continue
+                for sc2, funcs in present.items():
+                    if sc2 == sc or old not in funcs or old in (known["functions"].get(f"{rel}::{sc2}") or {}):
+                        continue
+                    g = funcs[old]
+                    if similarity(fp, stmt_hashes(g)) < 0.8:
+                        continue
+                    decos = [ast.unparse(d) for d in g.decorator_list]
+                    if sc == "" and decos == ["staticmethod"]:
+                        # staticmethod -> back to a module-level function
+                        bodies[sc2].remove(g)
+                        g.decorator_list = []
+                        idx = next((i for i, n in enumerate(mod.tree.body) if isinstance(n, ast.ClassDef) and n.name == sc2), len(mod.tree.body))
+                        mod.tree.body.insert(idx, g)
+                        for m2 in modules.values():
+                            for n in ast.walk(m2.tree):
+                                if isinstance(n, ast.Call) and isinstance(n.func, ast.Attribute) and n.func.attr == old and isinstance(n.func.value, ast.Name) \
+                                        and n.func.value.id in (sc2, "self", "cls"):
+                                    n.func = ast.copy_location(ast.Name(old, ast.Load()), n.func)
+                        rep.renamed.append((rel, f"{sc2}.{old} (staticmethod)", f"{old} (module level)"))
+                    elif sc2 == "" and sc and not g.decorator_list:
+                        known_static = True
+                        # module-level function -> back to a staticmethod of the class
+                        mod.tree.body.remove(g)
+                        g.decorator_list = [ast.Name("staticmethod", ast.Load())]
+                        bodies[sc].append(g)
+                        for m2 in modules.values():
+                            for n in ast.walk(m2.tree):
+                                if isinstance(n, ast.Call) and isinstance(n.func, ast.Name) and n.func.id == old:
+                                    n.func = ast.copy_location(ast.Attribute(ast.Name(sc, ast.Load()), old, ast.Load()), n.func)
+                        rep.renamed.append((rel, f"{old} (module level)", f"{sc}.{old} (staticmethod)"))
+                    present = {s_: {n.name: n for n in b if isinstance(n, FUNC)} for s_, b, _ in scopes(mod.tree)}
+                    break
+
+
+def undo_attr_renames(modules, known, rep: Report):
+    ka = known.get("attributes")
+    if not ka:
+        return
+    funcs = {f for v in known["functions"].values() for f in v}
+    now = attr_usage(modules)
+    # method names are handled by undo_renames; here: data attributes only
+    defs_now = {n.name for m in modules.values() for n in ast.walk(m.tree) if isinstance(n, FUNC)}
+    vanished = [a for a in ka if a not in now and a not in funcs]
+    fresh = [a for a in now if a not in ka and a not in defs_now]
+    for old in vanished:
+        scored = sorted(((similarity(ka[old], now[g]), g) for g in fresh), reverse=True)
+        if not scored or scored[0][0] < 0.7 or (len(scored) > 1 and scored[1][0] >= 0.7):
+            continue
+        if not any(u.endswith(":S") for u in now[scored[0][1]]) and any(u.endswith(":S") for u in ka[old]):
+            continue
+        new = scored[0][1]
+        for mod in modules.values():
+            for n in ast.walk(mod.tree):
+                if isinstance(n, ast.Attribute) and n.attr == new:
+                    n.attr = old
+        fresh.remove(new)
+        rep.renamed.append(("attribute", new, old))
+
+
 # ---------------------------------------------------------------------------------------------- N2 constants
 def _literal_like(v) -> bool:
     if isinstance(v, ast.Constant):
@@ -150,6 +241,45 @@ def _literal_like(v) -> bool:
     if isinstance(v, ast.JoinedStr):
         return False
     return False
+
+
+def _mutable(v) -> bool:
+    if isinstance(v, (ast.Dict, ast.List, ast.Set)):
+        return True
+    if isinstance(v, ast.Call) and isinstance(v.func, ast.Name) and v.func.id == "set":
+        return True
+    return False
+
+
+def _readonly_everywhere(modules, name: str) -> bool:
+    """Every use of `name` (plain or as attribute) is a membership test, an iteration, a subscript load, `.get(...)`,
+    `len(...)`, or the defining assignment."""
+    for mod in modules.values():
+        parents = {}
+        for p in ast.walk(mod.tree):
+            for c in ast.iter_child_nodes(p):
+                parents[id(c)] = p
+        for n in ast.walk(mod.tree):
+            hit = (isinstance(n, ast.Name) and n.id == name) or (isinstance(n, ast.Attribute) and n.attr == name)
+            if not hit:
+                continue
+            if isinstance(n.ctx, ast.Store):
+                continue
+            p = parents.get(id(n))
+            if isinstance(p, ast.Compare) and n in p.comparators and all(isinstance(o, (ast.In, ast.NotIn)) for o in p.ops):
+                continue
+            if isinstance(p, (ast.For, ast.comprehension)) and p.iter is n:
+                continue
+            if isinstance(p, ast.Subscript) and p.value is n and isinstance(p.ctx, ast.Load):
+                continue
+            if isinstance(p, ast.Attribute) and p.value is n and p.attr in ("get", "keys", "values", "items") and isinstance(parents.get(id(p)), ast.Call):
+                continue
+            if isinstance(p, ast.Call) and isinstance(p.func, ast.Name) and p.func.id in ("len", "sorted", "frozenset", "tuple", "list") and n in p.args:
+                continue
+            if isinstance(p, ast.alias) or isinstance(p, ast.ImportFrom):
+                continue
+            return False
+    return True
 
 
 def _local_names(fn) -> set:
@@ -214,6 +344,8 @@ def fold_constants(modules, known, rep: Report):
                     tgt, val = n.target.id, n.value
                 if tgt is None or tgt in kc or tgt.startswith("__") or stores.get(tgt, 0) != 1 or not _literal_like(val):
                     continue
+                if _mutable(val) and not _readonly_everywhere(modules, tgt):
+                    continue  # a module-level container that is written to is state (a cache, a registry), not a constant
                 cand[tgt] = (n, val)
             if not cand:
                 continue
@@ -375,6 +507,10 @@ def _expand(helper, call, caller, cls, target_names: set, mode: str):
         if p not in stored and _simple_expr(arg):
             subst[p] = arg
             continue
+        if p in stored and isinstance(arg, ast.Name) and arg.id in target_names and len(target_names) == 1:
+            # `a = h(.., a)`: the caller's `a` is dead once the call is made, the parameter can live in it
+            mapping[p] = arg.id
+            continue
         name = p if (p not in caller_names or (isinstance(arg, ast.Name) and arg.id == p)) else f"{p}__{helper.name.strip('_')}"
         if not (isinstance(arg, ast.Name) and arg.id == name):
             pre.append(ast.copy_location(ast.Assign([ast.Name(name, ast.Store())], copy.deepcopy(arg), lineno=call.lineno), call))
@@ -424,6 +560,9 @@ def _inline_in_block(stmts, helpers, caller, cls, rep: Report, failed: set):
                     mode = "expr" if isinstance(st, ast.Expr) else ("tail" if isinstance(st, ast.Return) else "value")
                     if isinstance(st, ast.Assign):
                         targets = {t.id for t in st.targets if isinstance(t, ast.Name)}
+                        for t in st.targets:
+                            if isinstance(t, ast.Tuple):
+                                targets |= {e.id for e in t.elts if isinstance(e, ast.Name)}
                     elif isinstance(st, ast.AnnAssign) and isinstance(st.target, ast.Name):
                         targets = {st.target.id}
         if call is None:
@@ -452,7 +591,9 @@ def _inline_in_block(stmts, helpers, caller, cls, rep: Report, failed: set):
             asg = copy.copy(st)
             asg.value = result
             tgt = st.targets[0] if isinstance(st, ast.Assign) else st.target
-            if not (isinstance(result, ast.Name) and isinstance(tgt, ast.Name) and result.id == tgt.id and isinstance(st, ast.Assign)):
+            same = isinstance(st, ast.Assign) and ast.dump(result, annotate_fields=False).replace("Load()", "X").replace("Store()", "X") == \
+                ast.dump(tgt, annotate_fields=False).replace("Load()", "X").replace("Store()", "X")
+            if not same:
                 new = new + [asg]
         for s in new:
             ast.fix_missing_locations(s)
@@ -522,9 +663,53 @@ def normalize(modules) -> Report:
         for n in mod.tree.body:
             if isinstance(n, ast.ClassDef) and any("Enum" in ast.unparse(b) for b in n.bases):
                 ENUMS.add(n.name)
+    from . import normalize2 as n2
+    n2.desugar_match(modules, rep)
+    undo_moves(modules, known, rep)
     undo_renames(modules, known, rep)
+    undo_attr_renames(modules, known, rep)
+    n2.undo_param_renames(modules, known, rep)
     fold_constants(modules, known, rep)
     inline_helpers(modules, known, rep)
+    n2.expand_ifexp(modules, known, rep)
+    n2.while_to_for(modules, known, rep)
+    n2.propagate_fresh_locals(modules, known, rep)
     seen = set()
     rep.kept = [k for k in rep.kept if not (k in seen or seen.add(k))]
     return rep
+
+
+def inlined_copy(fn, helpers: dict, cls: str):
+    """A detached copy of `fn` in which calls to the given same-class helpers ({name: def}) are inlined where the
+    call is in statement / assignment / return position (used by rules that do not want to depend on where a small
+    helper's statements live)."""
+    def detach(node):
+        if isinstance(node, list):
+            return [detach(x) for x in node]
+        if not isinstance(node, ast.AST):
+            return node
+        new = type(node)()
+        for f in node._fields:
+            if hasattr(node, f):
+                setattr(new, f, detach(getattr(node, f)))
+        for a in ("lineno", "col_offset", "end_lineno", "end_col_offset"):
+            if hasattr(node, a):
+                setattr(new, a, getattr(node, a))
+        return new
+    cp = detach(fn)
+    hs = {k: detach(v) for k, v in helpers.items() if v is not None}
+    rep = Report()
+    for _ in range(3):
+        body, ch = _inline_in_block(cp.body, hs, cp, cls, rep, set())
+        cp.body = body
+        if not ch:
+            break
+    mod = getattr(fn, "_module", None)
+    for parent in ast.walk(cp):
+        for child in ast.iter_child_nodes(parent):
+            child._parent = parent
+    cp._parent = getattr(fn, "_parent", None)
+    if mod is not None:
+        for n in ast.walk(cp):
+            n._module = mod
+    return cp, rep
